@@ -9,7 +9,7 @@ def keepMask (mask : Nat) : List Blk → Nat → List Blk
     let isDef := match b with | .refdef _ _ _ => true | _ => false
     if isDef || (mask / (2 ^ i)) % 2 == 1 then b :: keepMask mask bs (i + 1) else keepMask mask bs (i + 1)
 
-/-- `gendoc <seed> <size> <crlf> <mask>` → `<markdownHex> <htmlHex> <topLevelBlocks>`; mask selects the
+/-- `gendoc <seed> <size> <crlf> <mask>` → `<markdownHex> <htmlHex> <topLevelBlocks> <inFDoc>`; mask selects the
     top-level blocks kept (for shrinking; definitions are always kept); `all` keeps everything. -/
 def gendocOp : Op
   | [seed, size, crlf, mask] =>
@@ -21,7 +21,7 @@ def gendocOp : Op
         | none => r.doc
       let md := ser r.env.eol r.choices doc
       let html := denoteDoc r.env doc
-      s!"{Bytes.toHex md} {Bytes.toHex html} {r.doc.length}"
+      s!"{Bytes.toHex md} {Bytes.toHex html} {r.doc.length} {if inFDoc doc then 1 else 0}"
     | _, _ => bad
   | _ => bad
 
